@@ -126,10 +126,10 @@ void h_flines(void) {
     for suf, (df, dr) in DIRS.items():
         cs['shift_' + suf] = ('__CPROVER_requires(G_SQ < 64)\n__CPROVER_assigns()\n'
                               '__CPROVER_ensures(((__CPROVER_return_value >> G_SQ) & 1) == spec_shift_bit(bb, G_SQ, %d, %d))\n' % (df, dr))
-    calls = ''.join('  shift_%s(b);\n' % suf for suf in DIRS)
-    h = ND + 'void h_shift(void) { uint64_t b = nondet_u64(); G_SQ = nondet_u32();\n' + calls + CANARY + '}\n'
-    out.append(Job('shift/templates', BB, list(cs), h, 'h_shift', contracts=cs, enforce=list(cs), spec=['geom.h'], pre_text=ghost,
-                   timeout=600, note='shift<dir>(bb): bit t set iff the source square exists on the board and is set; all 2^64 bitboards'))
+    for fn in cs:
+        h = ND + 'void h_shift(void) { uint64_t b = nondet_u64(); G_SQ = nondet_u32();\n  %s(b);\n' % fn + CANARY + '}\n'
+        out.append(Job('shift/' + fn, BB, [fn], h, 'h_shift', contracts={fn: cs[fn]}, enforce=fn, spec=['geom.h'], pre_text=ghost,
+                       timeout=600, note='shift<dir>(bb): bit t set iff the source square exists on the board and is set; all 2^64 bitboards'))
     c_sh = ('__CPROVER_requires(G_SQ < 64 && (dir == 8 || dir == 1 || dir == -8 || dir == -1 || dir == 9 || dir == 7 || dir == -7 || dir == -9 || dir == 16 || dir == -16))\n'
             '__CPROVER_assigns()\n__CPROVER_ensures(((__CPROVER_return_value >> G_SQ) & 1) == spec_shift_bit(bb, G_SQ, '
             '(dir == 1 || dir == 9 || dir == -7) ? 1 : ((dir == -1 || dir == 7 || dir == -9) ? -1 : 0), '
@@ -144,11 +144,13 @@ void h_flines(void) {
             '(spec_shift_bit(bb, G_SQ, 1, 1) || spec_shift_bit(bb, G_SQ, 1, 0) || spec_shift_bit(bb, G_SQ, 1, -1) || spec_shift_bit(bb, G_SQ, 0, 1) || '
             'spec_shift_bit(bb, G_SQ, 0, -1) || spec_shift_bit(bb, G_SQ, -1, 1) || spec_shift_bit(bb, G_SQ, -1, 0) || spec_shift_bit(bb, G_SQ, -1, -1)))\n')
     cs2 = {'shift': c_sh, 'pawn_attacks_0': c_pa0, 'pawn_attacks_1': c_pa1, 'pawn_attacks': c_pa, 'king_attacks': c_ka}
-    h = ND + ('void h_att(void) { uint64_t b = nondet_u64(); G_SQ = nondet_u32(); int d = nondet_int(); uint32_t c = nondet_u32();\n'
-              '  shift(b, d); pawn_attacks_0(b); pawn_attacks_1(b); pawn_attacks(b, c); king_attacks(b);\n' + CANARY + '}\n')
-    out.append(Job('shift/pawn_king_attacks', tu('position.cpp', 'types.cpp', 'bithacks.cpp'), list(cs2), h, 'h_att', contracts=cs2,
-                   enforce=list(cs2), spec=['geom.h'], pre_text=ghost, timeout=600,
-                   note='pawn/king attack sets of arbitrary bitboards, point-wise; shift(bb, dir) dispatcher'))
+    calls2 = {'shift': 'shift(b, d)', 'pawn_attacks_0': 'pawn_attacks_0(b)', 'pawn_attacks_1': 'pawn_attacks_1(b)', 'pawn_attacks': 'pawn_attacks(b, c)', 'king_attacks': 'king_attacks(b)'}
+    for fn in cs2:
+        h = ND + ('void h_att(void) { uint64_t b = nondet_u64(); G_SQ = nondet_u32(); int d = nondet_int(); uint32_t c = nondet_u32();\n'
+                  '  %s;\n' % calls2[fn] + CANARY + '}\n')
+        out.append(Job('attacks/' + fn, tu('position.cpp', 'types.cpp', 'bithacks.cpp'), [fn], h, 'h_att', contracts={fn: cs2[fn]},
+                       enforce=fn, spec=['geom.h'], pre_text=ghost, timeout=600,
+                       note='pawn/king attack sets of arbitrary bitboards, point-wise; shift(bb, dir) dispatcher'))
     # ------------------------------------------------------------------ magic look-up
     c_gbi = ('__CPROVER_requires(index >= 0 && index < 4096 && __builtin_popcountll(mask) <= 12)\n__CPROVER_assigns()\n'
              '__CPROVER_ensures(__CPROVER_return_value == spec_pdep((uint32_t)index, mask))\n')
@@ -160,10 +162,10 @@ void h_flines(void) {
     RAYS_PRE = 'init_rays();'
     c_gra = '__CPROVER_requires(from < 64)\n__CPROVER_assigns()\n__CPROVER_ensures(__CPROVER_return_value == spec_rook_walk(from, blockers))\n'
     c_gba = '__CPROVER_requires(from < 64)\n__CPROVER_assigns()\n__CPROVER_ensures(__CPROVER_return_value == spec_bishop_walk(from, blockers))\n'
-    h = ND + 'void h_walk(void) { ' + RAYS_PRE + ' uint32_t s = nondet_u32(); uint64_t o = nondet_u64(); get_rook_attacks(s, o); get_bishop_attacks(s, o);' + CANARY + '}\n'
-    out.append(Job('magic/get_attacks', TUS, ['get_rook_attacks', 'get_bishop_attacks', 'init_rays'], h, 'h_walk',
-                   contracts={'get_rook_attacks': c_gra, 'get_bishop_attacks': c_gba}, enforce=['get_rook_attacks', 'get_bishop_attacks'],
-                   spec=['geom.h'], timeout=900, note='classical ray attacks (lsb/msb of the masked ray) == ray walk, all squares and occupancies; RAYS from the real init_rays'))
+    for fn, cc in (('get_rook_attacks', c_gra), ('get_bishop_attacks', c_gba)):
+        h = ND + 'void h_walk(void) { ' + RAYS_PRE + ' uint32_t s = nondet_u32(); uint64_t o = nondet_u64(); %s(s, o);' % fn + CANARY + '}\n'
+        out.append(Job('magic/' + fn, TUS, [fn, 'init_rays'], h, 'h_walk', contracts={fn: cc}, enforce=fn,
+                       spec=['geom.h'], timeout=900, note='classical ray attacks (lsb/msb of the masked ray) == ray walk, all squares and occupancies; RAYS from the real init_rays'))
     for kind, K, walk, attfn, sl in (('rook', 'ROOK', 'spec_rook_walk', 'get_rook_attacks', 'slider_attack_4'),
                                      ('bishop', 'BISHOP', 'spec_bishop_walk', 'get_bishop_attacks', 'slider_attack_3')):
         INIT = 'init_%s_magics' % kind
